@@ -32,9 +32,18 @@ CHECKS = {
  "C09": ("exploration", "runtime path monitor: every emitted EPATH parsed by a strict independent parser and compared with the intended address",
          "Every path built by the library's segment classes and path helpers is re-parsed by a strict CIP EPATH parser and compared with the intended segment sequence: logical values exhaustive to 2^16 plus 32-bit boundaries for five logical types, request_path with int/bytes arguments, tag strings from the documented grammar, port routes for every alias x slot and IPv4 links of every length; the same parser judges every request path the reference target receives in the end-to-end scenarios.",
          "Trusts vlib/refepath.py (CIP Vol 1 App. C-1.4; self-tested on the repository's wire captures and PM020 examples).", "4 C09"),
+ "C10": ("fault_enumeration", "runtime lifecycle monitor in the reference target + client-side exception/state oracle, under enumerated single transport faults",
+         "Call histories (every history up to length 2 quick / 3 thorough over the public operations of CIPDriver, LogixDriver and SLCDriver, plus random longer ones) are executed against the reference target under five target policies; each is first run fault-free to count its I/O operations, then re-run with one transport fault at operation k (all k in thorough, a spread in quick) of four kinds. The target's lifecycle monitor checks session-before-data, Forward-Open-before-connected-data and the extended-then-standard(500) order; the client side checks exception types, step budgets, driver.connected and the target's session/connection tables after every close, and that a later open works.",
+         "Connections live until Forward Close, sessions until UnRegister/TCP close (DESIGN.md Appendix A); a connection whose Forward Close the injected fault destroyed is not a leak.", "4 C10"),
+ "C11": ("exploration", "runtime frame monitor: strict encapsulation/CPF parser inside the reference target on every emitted frame, plus OS-level one-frame-per-send check",
+         "Every frame emitted during lifecycle histories with faults and re-opens, generic messages of every payload length 0..600 (random to 3970) over all three transports, and Logix upload/multi-service/fragmented/read-modify-write traffic on ten configurations is parsed strictly (lengths, command, session handle granted by the target, status/options 0, two items with exact lengths, target-chosen connection id, sequence count first).",
+         "Session handles and connection ids are chosen at random by the target, never the library's defaults.", "4 C11"),
  "C12": ("fault_enumeration", "runtime fault injection on a scripted fake OS socket (segmentation schedules x close/timeout/reset points) with byte-equality and termination oracles",
          "The real Socket.receive/Socket.send run over a fake OS socket whose schedule enumerates every subset of a boundary cut-set as split points, all uniform chunk sizes 1..256 and random compositions for frames at every length class, and for each frame every prefix class x {peer close, timeout, reset, OSError}; send is driven through every partial-send pattern, 0-byte sends and errors after j bytes.",
          "Enumeration is exhaustive over the stated cut-set, not over all 2^(n-1) compositions; one frame in flight.", "4 C12"),
+ "C13": ("exploration", "runtime fault injection on replies (status override, header-only errors, truncation, corruption) with result-classification oracle",
+         "For ten request kinds the reference target overrides the general status (0..255) and extended status (0-2 words) of a chosen reply (each fragment position for fragmented transfers, every per-service status vector of length 4 over {0,4,5,6,0xFF} for multi-service packets); header-only encapsulation errors, every truncation length and random corruptions are injected below the transport. The oracle demands truthy exactly for status 0 (6 for continuing services), falsy with an error text naming the status otherwise, only library exceptions, and never success from a reply too short for its status words; the open/upload path (register session, list identity, symbol pages, templates) is covered the same way.",
+         "Status 6 on services 0x03/0x0A/0x53 is a don't-care; for malformed replies only exception type and not-a-success are judged.", "4 C13"),
  "C14": ("exploration", "runtime router-journal monitor in an independent reference target + reply-value oracle",
          "The real driver sends generated generic messages (all three transports, every route_path form, int/bytes path arguments of 8/16/32 bits, every data length 0..64 and random to 400) to a reference target over a generated chassis; the target journals the (transport, service, path, data, route) it actually received and chooses the reply; journal and returned Tag are compared with the request and the reply. Helpers are checked against a controller shell with a frozen clock.",
          "Reference target per DESIGN.md Appendix A; direct-UCMM route appending is by design.", "4 C14"),
@@ -44,6 +53,12 @@ CHECKS = {
  "C16": ("exploration", "runtime differential: identities configured in the reference target vs dicts returned by every entry point",
          "Identities over the whole field domain are configured in the reference target (TCP ListIdentity, Identity object via UCMM and Unconnected Send, UDP discovery with 0..5 replies) and every field returned by list_identity/_list_identity/get_module_info/get_plc_info/discover is compared; ModuleIdentityObject encode/decode is checked for layout and round trip.",
          "Vendor/product-type texts come from the library's own tables.", "4 C16"),
+ "C17": ("exploration", "runtime per-connection sequence monitor in the reference target over long real histories and wrap-phase sweeps",
+         "The target compares the sequence count of every connected data item with the previous one on that connection (and, like a real target, answers a repeat from its reply cache). Workloads: histories of more than 65 535 real connected requests per request kind so the counter wraps inside real traffic, every request kind x phase offset around the wrap, and lifecycle histories with lost replies / resets.",
+         "The phase sweep advances the driver's counter through its `_sequence` generator; without that attribute only the long histories and fault histories run.", "4 C17"),
+ "C18": ("exploration", "runtime differential against a reference SLC data table: PCCC command journal, table diff and read-back",
+         "Addresses from the data-file grammar (every Bf/n bit number 0..4095, files/elements incl. 255, all forms and cases) are read and written through SLCDriver against a reference PCCC target; the command the target received is compared with what the address denotes, values with the data table, the whole table is diffed after every write, and malformed addresses must raise RequestError.",
+         "Reference data-table model per 1770-RM516; ST/A files and timer/counter writes are outside the property.", "4 C18"),
  "C19": ("exploration", "exhaustive runtime enumeration of every lookup against the class bodies",
          "Every EnumMap table found by walking the package is exercised exhaustively (all members x 9 casing classes, all codes, status 0..255, all extended pairs) against an oracle derived from the class bodies; the quantifier is finite, so the run is complete (exhaustive: true).",
          "Oracle reads members from vars(cls); trusts Python dict/str semantics.", "4 C19"),
